@@ -90,6 +90,8 @@ def gen_program(rng, features=None, n_nodes=None, n_modules=None):
                 r = rng.random()
                 if form == "bare" and r < F.get("p_alias", 0.12):
                     form = "alias"
+                elif form == "bare" and r < F.get("p_alias", 0.12) + F.get("p_wrapped", 0.1):
+                    form = "wrapped"      # reference through a functools.wraps decorator wrapper
                 if tj["kind"] == "memento" and nd["explicit"] is None and r > 1 - F.get("p_hidden", 0.1):
                     form = "hidden"
                 nd["calls"].append({"to": j, "form": form})
@@ -141,8 +143,8 @@ def units_of(prog, mi):
     for nd in prog["nodes"]:
         if nd["module"] == mi:
             for c in nd["calls"]:
-                if c["form"] == "alias":
-                    u = ("a", c["to"])
+                if c["form"] in ("alias", "wrapped"):
+                    u = ("a" if c["form"] == "alias" else "w", c["to"])
                     if u not in us:
                         us.append(u)
     return us
@@ -151,20 +153,20 @@ def units_of(prog, mi):
 def default_order(prog, mi):
     us = units_of(prog, mi)
     # aliases must follow their target's definition
-    out = [u for u in us if u[0] != "a"]
+    out = [u for u in us if u[0] not in ("a", "w")]
     for u in us:
-        if u[0] == "a":
+        if u[0] in ("a", "w"):
             out.insert(out.index(("n", u[1])) + 1, u)
     return [list(u) for u in out]
 
 
 def permuted_order(prog, mi, rng):
     us = [tuple(u) for u in default_order(prog, mi)]
-    plain = [u for u in us if u[0] != "a"]
+    plain = [u for u in us if u[0] not in ("a", "w")]
     rng.shuffle(plain)
     out = list(plain)
     for u in us:
-        if u[0] == "a":
+        if u[0] in ("a", "w"):
             out.insert(out.index(("n", u[1])) + 1 + rng.randrange(0, len(out) - out.index(("n", u[1]))), u)
     return [list(u) for u in out]
 
@@ -174,7 +176,8 @@ def mod_alias(mi):
 
 
 def header(prog, mi, base=None):
-    lines = ["import twosigma.memento as m"]
+    lines = ["import twosigma.memento as m", "import functools as _vft", "",
+             "def _vdeco(fn):", "    @_vft.wraps(fn)", "    def wrapper(*a, **k):", "        return fn(*a, **k)", "    return wrapper", ""]
     for mj in range(mi + 1, len(prog["modules"])):
         if pkg_of(prog, mj) == pkg_of(prog, mi):
             lines.append("from . import %s as %s" % (prog["modules"][mj], mod_alias(mj)))
@@ -193,6 +196,11 @@ def render_alias(prog, callee):
     return "al_%s = %s\n" % (t["name"], t["name"])
 
 
+def render_wrapped(prog, callee):
+    t = prog["nodes"][callee]
+    return "w_%s = _vdeco(%s)\n" % (t["name"], t["name"])
+
+
 def call_expr(prog, nd, c):
     t = prog["nodes"][c["to"]]
     if c["form"] == "bare":
@@ -201,6 +209,8 @@ def call_expr(prog, nd, c):
         return "%s.%s(x)" % (mod_alias(t["module"]), t["name"])
     if c["form"] == "alias":
         return "al_%s(x)" % t["name"]
+    if c["form"] == "wrapped":
+        return "w_%s(x)" % t["name"]
     if c["form"] == "hidden":
         if t["module"] == nd["module"]:
             return 'globals()["%s"](x)' % t["name"]
@@ -323,6 +333,8 @@ def render_unit(prog, u):
         return render_global(prog, u[1])
     if u[0] == "n":
         return render_node(prog, u[1])
+    if u[0] == "w":
+        return render_wrapped(prog, u[1])
     return render_alias(prog, u[1])
 
 
@@ -332,7 +344,7 @@ def render_module(prog, mi, order=None, base=None):
     known = [tuple(u) for u in order]
     for u in units_of(prog, mi):
         if u not in known:
-            if u[0] == "a":
+            if u[0] in ("a", "w"):
                 known.insert(known.index(("n", u[1])) + 1, u)
             else:
                 known.append(u)
@@ -694,6 +706,8 @@ def apply_edit(prog, e):
                 for c in a["calls"]:
                     if c["form"] == "alias" and c["to"] == u[1]:
                         touched.add(("a", u[1]))
+                    if c["form"] == "wrapped" and c["to"] == u[1]:
+                        touched.add(("w", u[1]))
     return p, touched
 
 
